@@ -702,6 +702,8 @@ func (in *inst) rewriteSelect(sel *ast.SelectStmt) ast.Stmt {
 	if hasDefault {
 		def = "true"
 	}
+	// a select statement is terminating when no arm breaks out of it; keep that property
+	clauses = append(clauses, &ast.CaseClause{List: nil, Body: []ast.Stmt{&ast.ExprStmt{X: &ast.CallExpr{Fun: ast.NewIdent("panic"), Args: []ast.Expr{&ast.BasicLit{Kind: token.STRING, Value: `"vrt: impossible select arm"`}}}}}})
 	sw := &ast.SwitchStmt{
 		Tag:  in.call("Select", append([]ast.Expr{ast.NewIdent(def)}, cases...)...),
 		Body: &ast.BlockStmt{List: clauses},
